@@ -15,10 +15,20 @@
   What remains a model artefact is stated, not hidden: `embedded_depth_le` (the tree stage nests
   embedded documents at most `bs.length` deep; deeper nesting is cut off by the model's fuel, as text)
   with the witness `embedded_cutoff_witness`. See DESIGN_NOTES/C13_C01_proofs.md.
+
+  Size bounds (section "Bounded: size" below): every intermediate object of the conversion — events,
+  tree, XML text — is bounded by an explicit polynomial in the input length and table constants:
+  `parse_events_size_le`, `w2x_tree_size_le`, `w2x_tree_depth_le`, `w2x_output_le`, `w2x_bounded_levels`,
+  `w2x_polynomial_space`. The polynomial is FIXED only for documents without embedded documents
+  (`w2x_bounded_partial`, degree 3 indented / 2 compact); an embedded SyncML document delivered by a
+  string-table reference is re-parsed once per reference, so every nesting level raises the degree by one
+  (`w2x_bounded_levels`, witnesses `quadratic_witness`, `cubic_witness`).
 -/
 import Wbxml.Lemmas.ParserSafeDepth
+import Wbxml.Lemmas.W2XDepth
+import Wbxml.Gen.Tables
 namespace Wbxml.Props.C01
-open Wbxml Wbxml.Model Wbxml.Lemmas.ParserSafe
+open Wbxml Wbxml.Model Wbxml.Lemmas.ParserSafe Wbxml.Lemmas.W2X
 
 /-- The empty input is refused with error 12 (`WBXML_ERROR_BAD_PARAMETER`). -/
 theorem empty_input (cfg : W2XCfg) : wbxml2xml cfg [] = .error (.code 12) := rfl
@@ -258,5 +268,339 @@ theorem embedded_cutoff_witness :
     (match treeOfWbxml selfCfg.main (advDoc.length + 1) 0 0 advDoc with
      | .ok t => embDepthT t == advDoc.length && (treeToXml selfCfg t.xmlFuel t).toBool
      | .error _ => false) = true := by decide +kernel
+
+
+/-! ## Bounded: size of the events, the tree and the XML text
+
+`n = bs.length`; table constants of `cfg.main`: `M = tableM` (longest tag name / attribute name + value
+prefix / attribute-value name / extension-value name), `K = nsMax` (longest namespace name),
+`H = hdrMax` (longest XML declaration + DOCTYPE line). -/
+
+/-- The conversion's parser configuration. -/
+abbrev pcfgOf (cfg : W2XCfg) : PCfg := { main := cfg.main, langForced := cfg.lang, metaCharset := cfg.charset }
+
+/-! ### Where payloads come from (per-source bounds) -/
+
+/-- Inline string: paid for octet by octet (and its terminator). -/
+theorem inline_string_le (s s' : PState) (str : Bytes) (h : parseTermstr s = .ok (str, s')) :
+    str.length + 1 + s'.rest.length ≤ s.rest.length := parseTermstr_len s _ h
+
+/-- String-table reference (`STR_T`, `LITERAL`, `EXT_T`): a C string inside the table, at most
+    `|table| - 1` octets (`xmlns`, 5 octets, without a table) — for two or three input octets. This is
+    the one source whose payload is not paid for by the octets consumed: the quadratic term. -/
+theorem strtbl_ref_le (s : PState) (i : Nat) (str : Bytes) (h : strtblRef s i = .ok str) :
+    str.length ≤ strBound s := strtblRef_len s i _ h
+
+/-- Character entity: at most 7 octets. -/
+theorem entity_le (code : Nat) (b : Bytes) (h : entityBytes code = .ok b) : b.length ≤ 7 := entityBytes_len code _ h
+
+/-- Opaque: paid for octet by octet, plus token and length field. -/
+theorem opaque_le (s s' : PState) (d : Bytes) (h : parseOpaque s = .ok (d, s')) :
+    d.length + 2 + s'.rest.length ≤ s.rest.length := parseOpaque_len s _ h
+
+/-- Typed content of an opaque of `k` octets (base64 `4⌈k/3⌉`, Wireless-Village integer ≤ 10 digits,
+    Wireless-Village date-time ≤ 25 octets, otherwise verbatim): at most `2k + 25` octets. -/
+theorem typed_content_le (lang : Nat) (cur : Option TagRow) (d o : Bytes)
+    (h : decodeOpaqueContent lang cur d = .ok o) : o.length ≤ 2 * d.length + 25 := decodeOpaqueContent_len lang cur d _ h
+
+/-- Typed attribute value of an opaque (base64 for language 1901): at most `2k + 2` octets. -/
+theorem typed_attr_le (lang : Nat) (d o : Bytes) (h : decodeOpaqueAttrValue lang d = .ok o) :
+    o.length ≤ 2 * d.length + 2 := decodeOpaqueAttrValue_len lang d _ h
+
+/-- SI / EMN date-time attribute value: at most 28 octets whatever the input. -/
+theorem datetime_attr_le (d o : Bytes) (h : decodeDatetime d = .ok o) : o.length ≤ 28 := decodeDatetime_len d _ h
+
+/-- Extension token: `$(` string `:escape)` around a string of the document (WML), or an extension-value
+    name of the table (Wireless Village). `N` bounds the remaining input and the string table. -/
+theorem extension_le (ts : Bool) (N M : Nat) (s s' : PState) (hc : Ctx N M s) (r : Option Bytes)
+    (h : parseExtension ts s = .ok (r, s')) : (r.getD []).length ≤ N + M + 10 := parseExtension_len ts hc _ h
+
+/-- **No character-data payload is longer than `2n + M + 45` octets.** -/
+theorem chars_payload_le (cfg : W2XCfg) (bs s : Bytes) (h : Event.chars s ∈ (parse (pcfgOf cfg) bs).events) :
+    s.length ≤ 2 * bs.length + tableM cfg.main + 45 := parse_chars_le (pcfgOf cfg) bs s h
+
+/-! ### 1. Events -/
+
+/-- **The events the parser delivers weigh at most `n · (n + M + 45)`** — one unit per event and per
+    attribute plus all octets of element names, attribute names and values (the value prefix of the
+    table row, the pieces, the terminating NUL), character data and PI targets / data; an end-element
+    event counts one unit (it carries the start event's `WBXMLTag`). Whatever the verdict, any tables.
+    Accounting: every input octet pays for at most `W = n + M + 45` units (`elem_content_size`): an event
+    or attribute costs at least one octet; a payload is a string of the document or of its string table
+    (≤ n + 5), a table row (≤ M), an entity (≤ 7), or a typed decoding of an opaque that is itself paid
+    for octet by octet. -/
+theorem parse_events_size_le (cfg : W2XCfg) (bs : Bytes) :
+    pevSize (fun _ => 0) (parse (pcfgOf cfg) bs).events ≤ bs.length * (bs.length + tableM cfg.main + 45) :=
+  parse_pevSize_le (pcfgOf cfg) bs
+
+/-! ### 2. Tree -/
+
+/-- Number of embedded-document levels of the tree the tree stage delivers (0 when it fails). -/
+def nesting (cfg : W2XCfg) (bs : Bytes) : Nat :=
+  match treeOfWbxml cfg.main (bs.length + 1) cfg.lang cfg.charset bs with
+  | .ok t => embDepthT t
+  | .error _ => 0
+
+/-- **Tree ≤ polynomial of the input, per nesting level**: with fewer than `D` levels of embedded
+    documents, `t.size ≤ treeBound M D n` where `treeBound M 0 n = 0`,
+    `treeBound M (D+1) n = 1 + 2·n·(n + M + 45 + treeBound M D (2n + M + 45))` — degree `D + 1` in `n`.
+    An embedded document is parsed from a character-data payload of the outer document (at most
+    `2n + M + 45` octets, at most `n` payloads). Any tables, any fuel. -/
+theorem w2x_tree_size_le (cfg : W2XCfg) (bs : Bytes) (t : Tree) (D : Nat)
+    (ht : treeOfWbxml cfg.main (bs.length + 1) cfg.lang cfg.charset bs = .ok t) (hD : embDepthT t < D) :
+    t.size ≤ treeBound (tableM cfg.main) D bs.length :=
+  treeOfWbxml_size_le cfg.main D _ _ _ _ _ ht (by omega)
+
+/-- Without embedded documents: `t.size ≤ 1 + 2·n·(n + M + 45)`. -/
+theorem w2x_tree_size_le_partial (cfg : W2XCfg) (bs : Bytes) (t : Tree)
+    (ht : treeOfWbxml cfg.main (bs.length + 1) cfg.lang cfg.charset bs = .ok t) (h0 : embDepthT t = 0) :
+    t.size ≤ 1 + 2 * (bs.length * (bs.length + tableM cfg.main + 45)) := by
+  have := w2x_tree_size_le cfg bs t 1 ht (by omega)
+  simpa only [treeBound, Nat.add_zero] using this
+
+/-- **Element nesting is linear in the input, per nesting level**: `depthBound M 0 n = 0`,
+    `depthBound M (D+1) n = n + depthBound M D (2n + M + 45)`. -/
+theorem w2x_tree_depth_le (cfg : W2XCfg) (bs : Bytes) (t : Tree) (D : Nat)
+    (ht : treeOfWbxml cfg.main (bs.length + 1) cfg.lang cfg.charset bs = .ok t) (hD : embDepthT t < D) :
+    t.eltDepth ≤ depthBound (tableM cfg.main) D bs.length :=
+  treeOfWbxml_eltDepth_le cfg.main D _ _ _ _ _ ht (by omega)
+
+/-- Without embedded documents the tree nests at most `n` elements. -/
+theorem w2x_tree_depth_le_partial (cfg : W2XCfg) (bs : Bytes) (t : Tree)
+    (ht : treeOfWbxml cfg.main (bs.length + 1) cfg.lang cfg.charset bs = .ok t) (h0 : embDepthT t = 0) :
+    t.eltDepth ≤ bs.length := by
+  have := w2x_tree_depth_le cfg bs t 1 ht (by omega)
+  simpa only [depthBound, Nat.add_zero] using this
+
+/-- Every language in a delivered tree is an entry of the main table. -/
+theorem w2x_tree_langs (cfg : W2XCfg) (bs : Bytes) (t : Tree) (Q : Lang → Bool) (hQ : ∀ l ∈ cfg.main, Q l = true)
+    (ht : treeOfWbxml cfg.main (bs.length + 1) cfg.lang cfg.charset bs = .ok t) :
+    langsOk Q (.tree t.lang t.origCharset t.root) = true :=
+  treeOfWbxml_langs cfg.main Q hQ _ _ _ _ _ ht
+
+/-! ### 3. XML text -/
+
+/-- **Output ≤ tree**: for every tree, fuel and option tuple, when the namespace names of the languages
+    that occur (the document's and the embedded documents') are at most `K` octets long,
+    `|xml| ≤ (18 + K)·size + 2·indent·size·eltDepth + |header| + 2`.
+    Per node (`xcost`): escaping multiplies by at most 6 (`&quot;`); an element costs `<`, `>`, `</`, `>`,
+    its name twice, up to three newlines, a namespace declaration (9 + K) and its indentation twice
+    (`indent · level` each, `level ≤ eltDepth`); an attribute ` name="…"`; a CDATA section 12 brackets and
+    at most 5 octets per octet (`]]>` is split); base64 of binary content 4/3 and never escaped; an
+    embedded document is generated without header. `indentOf cfg` is `cfg.indent` when `gen = 1`, else 0. -/
+theorem w2x_output_le (cfg : W2XCfg) (fuel : Nat) (t : Tree) (xml : Bytes) (K : Nat)
+    (hK : langsOk (fun l => decide (langNs l ≤ K)) (.tree t.lang t.origCharset t.root) = true)
+    (h : treeToXml cfg fuel t = .ok xml) :
+    ∃ l, t.lang = some l ∧
+      xml.length ≤ (18 + K) * t.size + 2 * (indentOf cfg * (t.size * t.eltDepth)) + hdrLen l + 2 :=
+  treeToXml_length_le cfg fuel t xml K hK h
+
+/-- The same with the node depth (`eltDepth ≤ depth ≤ size`). -/
+theorem w2x_output_le_depth (cfg : W2XCfg) (fuel : Nat) (t : Tree) (xml : Bytes) (K : Nat)
+    (hK : langsOk (fun l => decide (langNs l ≤ K)) (.tree t.lang t.origCharset t.root) = true)
+    (h : treeToXml cfg fuel t = .ok xml) :
+    ∃ l, t.lang = some l ∧
+      xml.length ≤ (18 + K) * t.size + 2 * (indentOf cfg * (t.size * t.depth)) + hdrLen l + 2 := by
+  obtain ⟨l, hl, hlen⟩ := w2x_output_le cfg fuel t xml K hK h
+  refine ⟨l, hl, ?_⟩
+  have hd : t.eltDepth ≤ t.depth := Lemmas.X2W.eltDepth_le_depth _
+  have := ind_mono (indentOf cfg) (Nat.le_refl t.size) hd
+  omega
+
+/-! ### 4. The conversion -/
+
+/-- **Bounded, level by level.** A successful conversion whose tree has `L = nesting cfg bs` levels of
+    embedded documents writes at most
+    `w2xPoly M K H indent (L+1) n = (18 + K)·S + 2·indent·S·Δ + H + 2` octets,
+    `S = treeBound M (L+1) n`, `Δ = depthBound M (L+1) n`: for each fixed `L` a polynomial in `n` of degree
+    `L + 2` (compact) resp. `L + 3` (indented). All inputs, all option tuples, arbitrary tables. -/
+theorem w2x_bounded_levels (cfg : W2XCfg) (bs xml : Bytes) (h : wbxml2xml cfg bs = .ok xml) :
+    xml.length ≤ w2xPoly (tableM cfg.main) (nsMax cfg.main) (hdrMax cfg.main) (indentOf cfg)
+      (nesting cfg bs + 1) bs.length := by
+  obtain ⟨t, ht, _, hb⟩ := wbxml2xml_length_le cfg bs xml h
+  have hn : nesting cfg bs = embDepthT t := by unfold nesting; rw [ht]
+  rw [hn]
+  exact (hb (embDepthT t + 1) (Nat.lt_succ_self _)).2.2
+
+/-- **Bounded by a fixed polynomial when no embedded document occurs** (every language but SyncML; SyncML
+    without a `…+wbxml` `Data` payload that parses): degree 3 in `n` with indentation, degree 2 without
+    (`indentOf cfg = 0` unless `gen = 1`). -/
+theorem w2x_bounded_partial (cfg : W2XCfg) (bs xml : Bytes) (h : wbxml2xml cfg bs = .ok xml)
+    (h0 : nesting cfg bs = 0) :
+    xml.length ≤ (18 + nsMax cfg.main) * (1 + 2 * (bs.length * (bs.length + tableM cfg.main + 45))) +
+      2 * (indentOf cfg * ((1 + 2 * (bs.length * (bs.length + tableM cfg.main + 45))) * bs.length)) +
+      hdrMax cfg.main + 2 := by
+  have := w2x_bounded_levels cfg bs xml h
+  rw [h0] at this
+  simpa only [w2xPoly, treeBound, depthBound, Nat.add_zero, Nat.zero_add] using this
+
+/-- Compact and canonical output: quadratic. -/
+theorem w2x_bounded_compact_partial (cfg : W2XCfg) (bs xml : Bytes) (h : wbxml2xml cfg bs = .ok xml)
+    (h0 : nesting cfg bs = 0) (hg : cfg.gen ≠ 1) :
+    xml.length ≤ (18 + nsMax cfg.main) * (1 + 2 * (bs.length * (bs.length + tableM cfg.main + 45))) +
+      hdrMax cfg.main + 2 := by
+  have := w2x_bounded_partial cfg bs xml h h0
+  have hi : indentOf cfg = 0 := by
+    unfold indentOf
+    have : (cfg.gen == 1) = false := by simpa using hg
+    rw [this]; rfl
+  rw [hi] at this
+  simpa only [Nat.zero_mul, Nat.mul_zero, Nat.add_zero] using this
+
+/-- The table constants of the library's own tables. -/
+theorem gen_tableMax : tableM Gen.main = 49 := by decide +kernel
+theorem gen_nsMax : nsMax Gen.main = 54 := by decide +kernel
+theorem gen_hdrMax : hdrMax Gen.main = 166 := by decide +kernel
+
+/-- With the library's tables: `|xml| ≤ 72·S + 2·indent·S·Δ + 168`, `S = treeBound 49 (L+1) n`,
+    `Δ = depthBound 49 (L+1) n`. -/
+theorem w2x_bounded_gen_levels (cfg : W2XCfg) (hm : cfg.main = Gen.main) (bs xml : Bytes)
+    (h : wbxml2xml cfg bs = .ok xml) :
+    xml.length ≤ 72 * treeBound 49 (nesting cfg bs + 1) bs.length +
+      2 * (indentOf cfg * (treeBound 49 (nesting cfg bs + 1) bs.length * depthBound 49 (nesting cfg bs + 1) bs.length)) +
+      168 := by
+  have := w2x_bounded_levels cfg bs xml h
+  rw [hm, gen_tableMax, gen_nsMax, gen_hdrMax] at this
+  simpa only [w2xPoly] using this
+
+/-- With the library's tables and no embedded document:
+    `|xml| ≤ 72·(1 + 2n(n + 94)) + 2·indent·(1 + 2n(n + 94))·n + 168`. -/
+theorem w2x_bounded_gen (cfg : W2XCfg) (hm : cfg.main = Gen.main) (bs xml : Bytes)
+    (h : wbxml2xml cfg bs = .ok xml) (h0 : nesting cfg bs = 0) :
+    xml.length ≤ 72 * (1 + 2 * (bs.length * (bs.length + 94))) +
+      2 * (indentOf cfg * ((1 + 2 * (bs.length * (bs.length + 94))) * bs.length)) + 168 := by
+  have := w2x_bounded_partial cfg bs xml h h0
+  rw [hm, gen_tableMax, gen_nsMax, gen_hdrMax] at this
+  exact this
+
+/-- **Polynomial space.** Every intermediate object of a successful conversion — the event list the
+    parser hands to the callbacks, the tree the builder makes of it, the XML text the generator writes —
+    is bounded by an explicit polynomial in the input length `n`, the table constants and the indentation
+    step, for each number `L` of embedded-document levels:
+
+    * events `≤ n·(n + M + 45)` (the document's own; each embedded document is a run of its own on a
+      payload of at most `2n + M + 45` octets);
+    * tree `≤ treeBound M (L+1) n`, element nesting `≤ depthBound M (L+1) n`, embedded levels `≤ n`;
+    * XML `≤ (18 + K)·tree + 2·indent·tree·nesting + H + 2`.
+
+    What this says about heap use: the payload octets and the object counts (events, attributes,
+    `WBXMLTreeNode`s, the output `WBXMLBuffer`'s contents) of everything the conversion allocates are
+    polynomially bounded. Without embedded documents the bound is quadratic for compact output and cubic
+    for indented output (`w2x_bounded_partial`); the quadratic term is real (`quadratic_witness`: `k`
+    string-table references of two octets each deliver the same `k`-octet string) and comes from
+    string-table references only — inline strings and opaques are paid for octet by octet
+    (`inline_string_le`, `opaque_le`), so a document that does not repeat string-table references is
+    linear. An embedded document delivered by a string-table reference is re-parsed per reference: each
+    level of embedding raises the degree by one (`cubic_witness`), so there is NO fixed polynomial for all
+    inputs. (Informally: an embedding document carries the 35-octet type label and holds the embedded one
+    inside its string table, NUL-free, so there are at most about `n / 35` levels; the proved bound on the
+    level count is `n`, `embedded_depth_le`.)
+
+    What it cannot say: the allocator's overhead per object, `WBXMLBuffer`'s growth policy (doubling),
+    the transient copies (`wbxml_buffer_create` of each payload, the private copy of the input), the C
+    stack of the recursive generator, fragmentation. Those are observed by the heap ladder of
+    `tools/props/c01.py` on the real code. -/
+theorem w2x_polynomial_space (cfg : W2XCfg) (bs xml : Bytes) (h : wbxml2xml cfg bs = .ok xml) :
+    pevSize (fun _ => 0) (parse (pcfgOf cfg) bs).events ≤ bs.length * (bs.length + tableM cfg.main + 45) ∧
+    ∃ t, treeOfWbxml cfg.main (bs.length + 1) cfg.lang cfg.charset bs = .ok t ∧
+      treeToXml cfg t.xmlFuel t = .ok xml ∧
+      embDepthT t = nesting cfg bs ∧ embDepthT t ≤ bs.length ∧
+      t.size ≤ treeBound (tableM cfg.main) (nesting cfg bs + 1) bs.length ∧
+      t.eltDepth ≤ depthBound (tableM cfg.main) (nesting cfg bs + 1) bs.length ∧
+      xml.length ≤ w2xPoly (tableM cfg.main) (nsMax cfg.main) (hdrMax cfg.main) (indentOf cfg)
+        (nesting cfg bs + 1) bs.length := by
+  refine ⟨parse_events_size_le cfg bs, ?_⟩
+  obtain ⟨t, ht, hx, hb⟩ := wbxml2xml_length_le cfg bs xml h
+  have hn : nesting cfg bs = embDepthT t := by unfold nesting; rw [ht]
+  obtain ⟨h1, h2, h3⟩ := hb (embDepthT t + 1) (Nat.lt_succ_self _)
+  rw [hn]
+  exact ⟨t, ht, hx, rfl, embedded_depth_le cfg bs t ht, h1, h2, h3⟩
+
+/-! ### 5. Non-vacuity and tightness -/
+
+def genCfg : W2XCfg := { main := Gen.main, gen := 1, indent := 2 }
+def genCompact : W2XCfg := { main := Gen.main, gen := 0 }
+
+/-- WML 1.3: `<wml><card id="a"><p>hi</p></card></wml>`, 19 octets. -/
+def wmlDoc : Bytes := [3, 0x0A, 0x6A, 0, 0x7F, 0xE7, 0x55, 3, 0x61, 0, 1, 0x60, 3, 0x68, 0x69, 0, 1, 1, 1]
+/-- SI 1.0: `<si><indication href="http://a.b/">hi</indication></si>`, 20 octets. -/
+def siDoc : Bytes := [3, 0x05, 0x6A, 0, 0x45, 0xC6, 0x0C, 3, 0x61, 0x2E, 0x62, 0x2F, 0, 1, 3, 0x68, 0x69, 0, 1, 1]
+
+/-- Check the measures of a run: events, tree size, element nesting, embedded levels, output length. -/
+def measuresAre (cfg : W2XCfg) (bs : Bytes) (ev ts dp lv out : Nat) : Bool :=
+  pevSize (fun _ => 0) (parse (pcfgOf cfg) bs).events == ev &&
+  (match treeOfWbxml cfg.main (bs.length + 1) cfg.lang cfg.charset bs with
+   | .ok t => t.size == ts && t.eltDepth == dp && embDepthT t == lv &&
+       (match treeToXml cfg t.xmlFuel t with | .ok x => x.length == out | .error _ => false)
+   | .error _ => false)
+
+/-- WML: events 24 (bound 19·113 = 2147), tree 20 (bound 4295), nesting 3 (bound 19), output 168 octets. -/
+example : measuresAre genCfg wmlDoc 24 20 3 0 168 = true := by decide +kernel
+/-- SI: events 38, tree 35, nesting 2, output 170 octets. -/
+example : measuresAre genCfg siDoc 38 35 2 0 170 = true := by decide +kernel
+
+example : ∃ xml, wbxml2xml genCfg wmlDoc = .ok xml ∧
+    xml.length ≤ 72 * (1 + 2 * (19 * (19 + 94))) + 2 * (2 * ((1 + 2 * (19 * (19 + 94))) * 19)) + 168 := by
+  have hw : (wbxml2xml genCfg wmlDoc).toBool = true := by decide +kernel
+  have h0 : nesting genCfg wmlDoc = 0 := by decide +kernel
+  rcases w2x_total genCfg wmlDoc with ⟨xml, h⟩ | ⟨c, _, hc⟩
+  · exact ⟨xml, h, w2x_bounded_gen genCfg rfl wmlDoc xml h h0⟩
+  · rw [hc] at hw; cases hw
+
+example : ∃ xml, wbxml2xml genCfg siDoc = .ok xml ∧
+    xml.length ≤ 72 * (1 + 2 * (20 * (20 + 94))) + 2 * (2 * ((1 + 2 * (20 * (20 + 94))) * 20)) + 168 := by
+  have hw : (wbxml2xml genCfg siDoc).toBool = true := by decide +kernel
+  have h0 : nesting genCfg siDoc = 0 := by decide +kernel
+  rcases w2x_total genCfg siDoc with ⟨xml, h⟩ | ⟨c, _, hc⟩
+  · exact ⟨xml, h, w2x_bounded_gen genCfg rfl siDoc xml h h0⟩
+  · rw [hc] at hw; cases hw
+
+/-- WML 1.3 `<wml><card><p>` … `</p></card></wml>` whose string table holds one string of `k` octets and
+    whose text is `k` references to it (two octets each): `3k + 11` octets. -/
+def quadDoc (k : Nat) : Bytes :=
+  [3, 0x0A, 0x6A, UInt8.ofNat (k + 1)] ++ List.replicate k 0x61 ++ [0, 0x7F, 0x67, 0x60] ++
+    (List.replicate k [0x83, 0x00]).flatten ++ [1, 1, 1]
+
+theorem quadDoc_length (k : Nat) : (quadDoc k).length = 3 * k + 11 := by
+  simp [quadDoc, List.length_flatten]; omega
+
+/-- **The quadratic term is real**: the `3k + 11` octets of `quadDoc k` decode to `k²` octets of text —
+    events, tree and compact XML all exceed `k²` (evaluated for `k = 8, 16, 32`: the input doubles, the
+    decoded document quadruples; `measuresAre`: events, tree, element nesting, embedded levels, output). -/
+theorem quadratic_witness :
+    (quadDoc 8).length = 35 ∧ measuresAre genCompact (quadDoc 8) 88 77 3 0 208 = true ∧
+    (quadDoc 16).length = 59 ∧ measuresAre genCompact (quadDoc 16) 288 269 3 0 400 = true ∧
+    (quadDoc 32).length = 107 ∧ measuresAre genCompact (quadDoc 32) 1072 1037 3 0 1168 = true := by
+  refine ⟨by decide +kernel, by decide +kernel, by decide +kernel, by decide +kernel, by decide +kernel, by decide +kernel⟩
+
+/-! ### Embedded documents through the string table: one more degree per level -/
+
+def nestLang : Lang := { advLang with id := 9001, exts := none }
+def nestCfg : W2XCfg := { main := [nestLang], gen := 0 }
+
+/-- A NUL-free document `<X>` … `</X>` whose (unterminated) string table is `p + 1` octets and whose
+    text is `m` references to its last `p` octets. -/
+def innerDoc (m p : Nat) : Bytes :=
+  [3, 2, 0x6A, UInt8.ofNat (p + 1)] ++ List.replicate (p + 1) 0x61 ++ [0x48] ++
+    (List.replicate m [0x83, 0x01]).flatten ++ [1]
+
+/-- `<X><Meta><Type>application/vnd.syncml-devinf+wbxml</Type></Meta><Data>` … `</Data></X>` whose string
+    table is `innerDoc m p` and whose `Data` content is `k` references to it: each reference is parsed
+    as an embedded document. -/
+def outerDoc (k m p : Nat) : Bytes :=
+  [3, 2, 0x6A, UInt8.ofNat ((innerDoc m p).length + 1)] ++ innerDoc m p ++ [0] ++ [0x48, 0x46, 0x47, 0x03] ++
+    b!"application/vnd.syncml-devinf+wbxml" ++ [0, 1, 1, 0x45] ++ (List.replicate k [0x83, 0x00]).flatten ++ [1, 1]
+
+/-- **One level of embedded documents makes the decoded document cubic**: `outerDoc k k k` has `5k + 57`
+    octets; its tree holds `k` embedded documents of `k²` text octets each (evaluated for `k = 5, 10`:
+    the input grows by 25 octets, the tree from 199 to 1094 units, the XML from 304 to 1214 octets;
+    `measuresAre`: events, tree, element nesting, embedded levels, output).
+    Only element names matter to the tree builder (`Data` under a `Meta/Type` of `…+wbxml`), so the
+    same happens under the library's SyncML tables. Every further level multiplies again
+    (`w2x_bounded_levels`): no fixed polynomial bounds the conversion of all inputs. -/
+theorem cubic_witness :
+    (outerDoc 5 5 5).length = 82 ∧ measuresAre nestCfg (outerDoc 5 5 5) 174 199 3 1 304 = true ∧
+    (outerDoc 10 10 10).length = 107 ∧ measuresAre nestCfg (outerDoc 10 10 10) 439 1094 3 1 1214 = true := by
+  refine ⟨by decide +kernel, by decide +kernel, by decide +kernel, by decide +kernel⟩
 
 end Wbxml.Props.C01
